@@ -337,6 +337,10 @@ func judge(c *harness.Ctx, lay *layoutT, suite uint16, fromClient bool, idx int,
 		c.Add("deletion_at_end_of_stream_seen_as_eof", 1)
 		return
 	}
+	if failed && recv.ReadErr != nil && recv.ReadErr != io.EOF && (len(recv.ReadAfterErr) > 0 || recv.ReadRecovered) {
+		c.Violate(key("error-not-sticky"), fmt.Sprintf("[%s] after the fatal error %v further Read calls delivered %d bytes (recovered=%v): nothing may be delivered after the affected record", tag, recv.ReadErr, len(recv.ReadAfterErr), recv.ReadRecovered), nil, tag)
+		return
+	}
 	if !failed {
 		c.Violate(key("no-fatal-error"), fmt.Sprintf("[%s] the receiver saw no error (handshake err %v, read err %v) although the protected stream was changed; delivered %d of %d bytes", tag, recv.HandshakeErr, recv.ReadErr, len(recv.Read), len(sent)), nil, tag)
 	}
